@@ -17,7 +17,7 @@ use crate::compiler::optimize::cse::cse_optimize_bodyform;
 use crate::compiler::optimize::deinline::deinline_opt;
 use crate::compiler::optimize::double_apply::remove_double_apply;
 use crate::compiler::optimize::{
-    null_optimization, optimize_expr, run_optimizer, CompileContextWrapper, Optimization,
+    null_optimization_of_expression, optimize_expr, run_optimizer, CompileContextWrapper, Optimization,
 };
 use crate::compiler::sexp::SExp;
 use crate::compiler::StartOfCodegenOptimization;
@@ -201,7 +201,7 @@ impl Optimization for Strategy23 {
         _helper: Option<&HelperForm>,
         code: Rc<SExp>,
     ) -> Result<Rc<SExp>, CompileErr> {
-        let (null_worked, result) = null_optimization(code.clone(), true);
+        let (null_worked, result) = null_optimization_of_expression(code.clone());
         let (double_worked, dbl_result) = remove_double_apply(result, true);
         let (brief_worked, brief_result) = brief_path_selection(dbl_result);
         if null_worked || double_worked || brief_worked {
@@ -244,7 +244,7 @@ impl Optimization for Strategy23 {
         _opts: Rc<dyn CompilerOpts>,
         generated: SExp,
     ) -> Result<SExp, CompileErr> {
-        let (null_worked, result) = null_optimization(Rc::new(generated.clone()), true);
+        let (null_worked, result) = null_optimization_of_expression(Rc::new(generated.clone()));
         let (double_worked, dbl_result) = remove_double_apply(result, true);
         let (brief_worked, brief_result) = brief_path_selection(dbl_result);
         if null_worked || double_worked || brief_worked {
